@@ -383,9 +383,8 @@ theorem float_complex_excl (c : Column) (hsn : StrNotNull c)
       rw [hn] at this; cases this
     | none =>
       rw [hs] at hgx
-      simp only [hn, if_true] at hgx
-      cases hna : x.na <;> rw [hna] at hgx <;> simp at hgx
-      · obtain ⟨rfl⟩ := hgx; simp [FloatV.isNan] at hnn
+      simp only [hn, if_true, Outcome.ok.injEq] at hgx
+      subst hgx; simp [FloatV.isNan] at hnn
   · have hn' : x.null = false := by simpa using hn
     obtain ⟨f, hs, hpf⟩ := pred_float c hf x hx hn'
     simp only [cellComplex, hs] at hgx
